@@ -93,17 +93,78 @@ def run(prog: Program, rep, thorough: bool) -> None:
     def assigns(n: Node, what: str) -> bool:
         return n.ast is not None and n.kind == 'stmt' and what in defs_of(n)
 
+    BE = 'self.barrel_elevation'
+
+    def held_location(e: Optional[ast.AST]) -> Optional[str]:
+        """the location an expression takes the elevation from: the attribute, a local, or either wrapped as an Angular"""
+        if e is None:
+            return None
+        if norm(e) == BE:
+            return BE
+        if isinstance(e, ast.Name):
+            return e.id
+        if isinstance(e, ast.Call) and (dotted(e.func) or '').split('.')[0] == 'Angular' and e.args and not isinstance(e.args[0], ast.Starred):
+            return held_location(e.args[0])
+        return None
+
+    def predicate_sense(e: ast.AST) -> Optional[Tuple[str, str]]:
+        """what an expression over the error says about `error > accuracy`: (its value when the expression is true, when it
+        is false), '?' where nothing follows; None when the expression is not such a comparison"""
+        if isinstance(e, ast.UnaryOp) and isinstance(e.op, ast.Not):
+            inner = predicate_sense(e.operand)
+            return None if inner is None else (inner[1], inner[0])
+        if isinstance(e, ast.Compare):
+            cs = [c for c in cmp_of(e) if c[0] == err]
+            if len(cs) == 1:
+                return {'Gt': ('T', 'F'), 'LtE': ('F', 'T'), 'Lt': ('F', '?'), 'GtE': ('?', 'F')}.get(cs[0][1])
+        return None
+
     def transfer(n: Node, s):
-        fresh, errfresh, P = s
+        # fresh = (M, Q): M the locations that hold the elevation of the last measurement, Q the locals known equal to the
+        # attribute's current value; the iterate may live in the attribute or in a local written back before each run
+        (M, Q), errfresh, P, B = s
         if n.ast is None or n.kind not in ('stmt',):
             return s
+        a_ = n.ast
+        # B: boolean locals that hold the outcome of the comparison, as (name, value of `error > accuracy` when it is true)
+        for loc in defs_of(n):
+            B = frozenset(b for b in B if b[0] != loc)
+        if assigns(n, err):
+            B = frozenset()
+        if isinstance(a_, (ast.Assign, ast.AnnAssign)) and len(defs_of(n)) == 1 and a_.value is not None:
+            sense = predicate_sense(a_.value)
+            if sense is not None and not assigns(n, err):
+                B = B | {(next(iter(defs_of(n))), sense)}
         if n.id in integrate_nodes:
-            fresh = True
-        if assigns(n, 'self.barrel_elevation'):
-            fresh, errfresh = False, False
+            if BE not in M:
+                errfresh = False          # a measurement at another elevation: the error on hand belongs to the old one
+            M = frozenset(Q | {BE})
+        for loc in defs_of(n):
+            if n.id in integrate_nodes and loc != BE:
+                M, Q = M - {loc}, Q - {loc}
+                continue
+            if n.id in integrate_nodes:
+                continue
+            src = held_location(a_.value) if isinstance(a_, (ast.Assign, ast.AnnAssign)) and len(defs_of(n)) == 1 else None
+            if loc == BE:
+                if src is not None and src != BE and isinstance(a_.value, ast.Name):
+                    Q = frozenset({src})
+                    M = (M | {BE}) if src in M else (M - {BE})
+                else:
+                    Q = frozenset()
+                    M = M - {BE}
+            elif loc == err:
+                continue
+            else:
+                if src is not None and src != loc:
+                    M = (M | {loc}) if src in M else (M - {loc})
+                    Q = (Q | {loc}) if (src == BE or src in Q) and isinstance(a_.value, (ast.Name, ast.Attribute)) else (Q - {loc})
+                else:
+                    M, Q = M - {loc}, Q - {loc}
+        fresh = (frozenset(M), frozenset(Q))
         if assigns(n, err):
             if err_from_measurement(n) and isinstance(n.ast, (ast.Assign, ast.AnnAssign)):
-                errfresh, P = fresh, '?'
+                errfresh, P = bool(fresh[0]), '?'
             else:
                 errfresh = False
                 P = '?'
@@ -113,65 +174,85 @@ def run(prog: Program, rep, thorough: bool) -> None:
                     nums = [x for x in (v.left, v.right) if isinstance(x, ast.Constant) and isinstance(x.value, (int, float))]
                     if any(p in acc_names for p in parts) and nums and nums[0].value > 1:
                         P = 'T'       # error := accuracy * k, k > 1 (assumption accuracy > 0)
-        for a in acc_names:
-            if assigns(n, a) and '.' not in a:
-                pass
-        return (fresh, errfresh, P)
+        return (fresh, errfresh, P, B)
+
+    opaque_tests: List[Node] = []
 
     def branch(n: Node, s, lab: str):
-        fresh, errfresh, P = s
+        fresh, errfresh, P, B = s
         if n.kind != 'test' or lab not in ('T', 'F'):
             return s
-        cs = [c for c in cmp_of(n.ast) if c[0] == err]
-        if not cs:
-            return s
-        _e, op, _a = cs[0]
-        # the comparison is the whole test, or a conjunct of an `and`
-        whole = isinstance(n.ast, ast.Compare)
-        conj = isinstance(n.ast, ast.BoolOp) and isinstance(n.ast.op, ast.And)
-        disj = isinstance(n.ast, ast.BoolOp) and isinstance(n.ast.op, ast.Or)
-        neg = isinstance(n.ast, ast.UnaryOp) and isinstance(n.ast.op, ast.Not)
-        truth_when_T = {'Gt': 'T', 'LtE': 'F'}.get(op)
-        if truth_when_T is None:
-            return s            # >= or < against the accuracy: not the predicate of the statement, learn nothing
-        other = 'F' if truth_when_T == 'T' else 'T'
-        if neg:
-            truth_when_T, other = other, truth_when_T
-            whole = True
-        if whole:
-            newP = truth_when_T if lab == 'T' else other
+
+        def learn(newP):
+            if newP == '?':
+                return s
             if P in ('T', 'F') and P != newP:
                 return None        # contradicts what is already known on this path
-            return (fresh, errfresh, newP)
-        if conj and lab == 'T':
-            if P in ('T', 'F') and P != truth_when_T:
-                return None
-            return (fresh, errfresh, truth_when_T)
-        if disj and lab == 'F':
-            if P in ('T', 'F') and P != other:
-                return None
-            return (fresh, errfresh, other)
+            return (fresh, errfresh, newP, B)
+
+        def sense_of(e: ast.AST) -> Optional[Tuple[str, str]]:
+            """through the comparison itself or a local holding its outcome"""
+            if isinstance(e, ast.UnaryOp) and isinstance(e.op, ast.Not):
+                inner = sense_of(e.operand)
+                return None if inner is None else (inner[1], inner[0])
+            if isinstance(e, ast.Name):
+                hit = [b[1] for b in B if b[0] == e.id]
+                return hit[0] if len(hit) == 1 else None
+            return predicate_sense(e)
+        t = n.ast
+        whole = sense_of(t)
+        if whole is not None:
+            return learn(whole[0] if lab == 'T' else whole[1])
+        if isinstance(t, ast.BoolOp):
+            senses = [x for x in (sense_of(v) for v in t.values) if x is not None]
+            if len(senses) == 1:
+                if isinstance(t.op, ast.And) and lab == 'T':
+                    return learn(senses[0][0])
+                if isinstance(t.op, ast.Or) and lab == 'F':
+                    return learn(senses[0][1])
+                return s
+        # a test that reads the error (or something computed from it) in a form not understood: remembered, so that a
+        # return the analysis cannot justify is reported as unreadable and not as a violation
+        names_t = {x.id for x in ast.walk(t) if isinstance(x, ast.Name)} | {norm(x) for x in ast.walk(t) if isinstance(x, ast.Attribute)}
+        if n not in opaque_tests and ((names_t & judged) or ((names_t & tainted) and (names_t & set(acc_names)))):
+            opaque_tests.append(n)
         return s
-    states = run_typestate(cfg, (False, False, '?'), transfer, branch)
+    # locals computed from the error (transitively), and among them those computed together with the accuracy: only a test
+    # on the latter (or on error and accuracy at once) can say anything about `error > accuracy`
+    tainted: Set[str] = {err}
+    judged: Set[str] = set()
+    changed = True
+    while changed:
+        changed = False
+        for n_ in cfg.nodes:
+            if n_.kind == 'stmt' and isinstance(n_.ast, (ast.Assign, ast.AnnAssign, ast.AugAssign)) and n_.ast.value is not None:
+                v_ = n_.ast.value
+                used = {x.id for x in ast.walk(v_) if isinstance(x, ast.Name)} | {norm(x) for x in ast.walk(v_) if isinstance(x, ast.Attribute)}
+                locs = {d for d in defs_of(n_) if '.' not in d}
+                if used & tainted and locs - tainted:
+                    tainted |= locs
+                    changed = True
+                if ((used & judged) or ((used & tainted) and (used & set(acc_names)))) and (locs - {err}) - judged:
+                    judged |= locs - {err}
+                    changed = True
+    states = run_typestate(cfg, ((frozenset(), frozenset()), False, '?', frozenset()), transfer, branch)
     rets = [n for n in cfg.nodes if isinstance(n.ast, ast.Return)]
     raises = [n for n in cfg.nodes if isinstance(n.ast, ast.Raise)]
     rep.assume('cZeroFindingAccuracy > 0 (the initial error `accuracy * 2` is then above the accuracy)')
     if not rets:
         raise AnalysisError('zero_angle has no return')
     for r in rets:
-        bad = [s for s in states[r.id] if not (s[1] and s[2] == 'F')]
-        val_ok = 'self.barrel_elevation' in {norm(x) for x in ast.walk(r.ast) if isinstance(x, ast.Attribute)}
-        if not val_ok and isinstance(r.ast.value, ast.Name):
-            # returned through a local: every definition reaching the return wraps the elevation, and the state facts at
-            # the return (elevation unchanged since the last measurement) cover the stretch between definition and return
-            dn = [cfg.nodes[i] for i in deps.rd[r.id].get(r.ast.value.id, set())]
-            val_ok = bool(dn) and all(isinstance(d_.ast, (ast.Assign, ast.AnnAssign)) and d_.ast.value is not None
-                                      and 'self.barrel_elevation' in {norm(x) for x in ast.walk(d_.ast.value) if isinstance(x, ast.Attribute)}
-                                      and not any(isinstance(x, ast.BinOp) for x in ast.walk(d_.ast.value)) for d_ in dn)
+        src = held_location(r.ast.value)
+        bad = [s for s in states[r.id] if not (s[1] and s[2] == 'F' and src is not None and src in s[0][0])]
+        val_ok = src is not None
+        if bad and opaque_tests and all(s[1] and src is not None and src in s[0][0] for s in bad):
+            # only the accuracy test is missing, and a test the analysis does not read is on the way
+            raise AnalysisError(f'zero_angle: the test at line {opaque_tests[0].line} reads the error in a form this rule '
+                                f'does not understand (`{norm(opaque_tests[0].ast)[:70]}`); the return cannot be judged')
         if bad:
             s = bad[0]
             why = []
-            if not s[1]:
+            if not s[1] or src is None or src not in s[0][0]:
                 why.append('the error was not computed from a trajectory integrated with the elevation being returned '
                            '(the elevation changed after the last measurement, or no measurement was made)')
             if s[2] != 'F':
